@@ -83,14 +83,29 @@ def main(argv):
     # 4. run the implementation
     if hasattr(mod, "setup_impl"):
         mod.setup_impl()
-    results = [guarded_run(mod, c) for c in cases]
+    # the implementation runs take seconds on the unchanged tree; changed code can be pathologically slow: past the budget the
+    # remaining cases are not run (recorded in the evidence) and the verdict is taken on the cases evaluated so far
+    budget = float(os.environ.get("VERIF_IMPL_BUDGET", "240" if tier == "quick" else "3000"))
+    t_impl = time.time(); results = []
+    for c in cases:
+        if time.time() - t_impl > budget:
+            break
+        results.append(guarded_run(mod, c))
+    dropped = len(cases) - len(results)
+    cases = cases[:len(results)]
 
     # 5. evaluate model + spec checker in Coq
     bad_codes, errors, _raw = {}, [], {}
     if ok:
         terms = []
-        for c, r in zip(cases, results):
-            terms.append(mod.coq_case(c, r))
+        for i, (c, r) in enumerate(zip(cases, results)):
+            try:
+                terms.append(mod.coq_case(c, r))
+            except Exception as e:
+                # the implementation returned something outside the documented result type (e.g. None for a number): that is a
+                # wrong answer on this input, not a reason for the harness to stop - it is encoded like a raising call
+                results[i] = {"raise": "ResultOfUndocumentedType", "msg": ("%s; returned %r" % (e, r))[:300]}
+                terms.append(mod.coq_case(c, results[i]))
         bad_codes, errors, _raw = common.run_coq_cases(work, mod.COQ_HEADER, mod.COQ_RUN, mod.COQ_CASE_TYPE, terms,
                                                        shard=getattr(mod, "SHARD", 400))
         for k, e in errors:
@@ -204,7 +219,7 @@ def main(argv):
             "static_obligations": [(n, g) for n, g, _ in extra],
             "evaluations": len(cases), "distinct_nontrivial": len(nontriv),
             "rule": getattr(mod, "RULE", ""), "samples": samples,
-            "input_distribution": fam, "result_kinds": res_kinds,
+            "input_distribution": fam, "result_kinds": res_kinds, "cases_not_run_time_budget": dropped,
             "disagreements_checked": len(mism), "spec_failures": len(specfail), "failing_cases_not_listed": truncated,
             "known_finding_hits": {k: len(v) for k, v in known_hits.items()},
             "broken_obligations": [(k, n) for k, n, _ in broken],
@@ -248,7 +263,7 @@ def guarded_run(mod, c):
     """run the implementation on one case; a raising or non-returning implementation becomes a result, not a dead harness.
     The per-case limit (default 60 s; ordinary cases take milliseconds) only matters for changed code that loops."""
     import signal
-    limit = float(os.environ.get("VERIF_CASE_TIMEOUT", "60"))
+    limit = float(os.environ.get("VERIF_CASE_TIMEOUT", getattr(mod, "CASE_TIMEOUT", 60)))
     def on_alarm(sig, frm):
         raise CaseTimeout("implementation did not return within %g s" % limit)
     old = signal.signal(signal.SIGALRM, on_alarm)
